@@ -563,13 +563,19 @@ class RandomPrograms:
             names[rng.randrange(len(names))] = rng.choice(UNDERSCORE_POOL)
         self.kind_of = {}
         self.used_funcs = set()
+        if getattr(self, 'keyword_rate', 0.0) and rng.random() < self.keyword_rate:
+            # a parameter or error may carry a Python keyword as its name: the braces / angle brackets delimit it
+            kw = rng.choice(['lambda', 'in', 'is', 'or', 'if', 'class', 'not'])
+            names[rng.randrange(len(names))] = kw
+            self.kind_of[kw] = rng.choice(['param', 'error'])
         n_eq = rng.randint(1, self.max_eqs)
         lhs_names = []
+        lhs_pool = [x for x in names if self.kind_of.get(x) not in ('param', 'error')] or names
         for _ in range(n_eq):
-            nm = rng.choice(names)
+            nm = rng.choice(lhs_pool)
             tries = 0
             while nm in lhs_names and tries < 10:
-                nm = rng.choice(names)
+                nm = rng.choice(lhs_pool)
                 tries += 1
             if nm in lhs_names:
                 break
